@@ -37,7 +37,7 @@ func init() {
 		Check:           c16Check,
 		DistinctClasses: []string{"grammar-T"},
 		MinEvaluations:  func(tier string) int64 { return 1000 },
-		RequiredCounts:  []string{"limit_parses", "exact_ok_at_T", "fail_below_T", "flood_cases", "multi_source_cases", "work_checked"},
+		RequiredCounts:  []string{"sparse_documents", "limit_parses", "exact_ok_at_T", "fail_below_T", "flood_cases", "multi_source_cases", "work_checked"},
 		MaxStackMB:      512,
 	})
 }
@@ -69,7 +69,16 @@ func c16Run(x *core.Ctx) {
 		if len(toks) > 160 {
 			toks = toks[:160]
 		}
-		c := core.NewCase("limits", "grammar", g, "src", rn.Text(toks))
+		text := rn.Text(toks)
+		if i%3 == 1 {
+			// sparse document: few tokens, many bytes (long ignored runs, long comments, long strings)
+			if len(toks) > 24 {
+				toks = toks[:24]
+			}
+			text = c16Sparse(r, toks)
+			x.Count("sparse_documents")
+		}
+		c := core.NewCase("limits", "grammar", g, "src", text)
 		x.Do(c, func() { c16Check(x, c) })
 		if i%5 == 0 {
 			// multi-source schema
@@ -108,6 +117,32 @@ func c16Run(x *core.Ctx) {
 			}
 		}
 	}
+}
+
+// c16Sparse joins tokens with long runs of ignored characters and long comments, so that the
+// byte length is far above any per-token average.
+func c16Sparse(r *core.Rand, toks []model.Tok) string {
+	var b strings.Builder
+	pad := func() {
+		switch r.Intn(5) {
+		case 0:
+			b.WriteString(strings.Repeat(" ", 1+r.Intn(400)))
+		case 1:
+			b.WriteString(strings.Repeat("\n", 1+r.Intn(200)))
+		case 2:
+			b.WriteString(strings.Repeat(",", 1+r.Intn(300)))
+		case 3:
+			b.WriteString(" #" + strings.Repeat("x", r.Intn(600)) + "\n")
+		default:
+			b.WriteString(" ")
+		}
+	}
+	for _, t := range toks {
+		pad()
+		b.WriteString(t.Text)
+	}
+	pad()
+	return b.String()
 }
 
 func c16Check(x *core.Ctx, c *core.Case) {
